@@ -15,7 +15,7 @@ pub struct AsyncDetached<I: AsyncIterator, B: MutRB> {
     phantom_data: PhantomData<B>
 }
 
-unsafe impl<I: AsyncIterator, B: MutRB> Send for AsyncDetached<I, B> {}
+unsafe impl<I: AsyncIterator + Send, B: MutRB> Send for AsyncDetached<I, B> {}
 
 impl<B: MutRB<Item = T>, T, I: AsyncIterator> AsyncDetached<I, B> {
        
